@@ -37,6 +37,8 @@ struct Sys {
     /// connects a few blocks; the tracker then sits strictly between genesis and the checkpoint
     testnet: bool,
     blocks: u32,
+    /// what is needed to disconnect the connected blocks again, newest last
+    undo: Vec<(lightning_signer::txoo::proof::TxoProof, lightning_signer::chain::tracker::Headers)>,
 }
 
 impl Sys {
@@ -60,7 +62,7 @@ impl Sys {
         let node_id = node.get_id();
         let secp = Secp256k1::new();
         let peer = PublicKey::from_secret_key(&secp, &SecretKey::from_slice(&[9u8; 32]).unwrap()).serialize();
-        let mut sys = Sys { world, node, node_id, peer, testnet, blocks: 0 };
+        let mut sys = Sys { world, node, node_id, peer, testnet, blocks: 0, undo: vec![] };
         if testnet {
             // a fresh tracker (height 0) is moved to the checkpoint by a restart, by design: the
             // history starts after the first block
@@ -72,10 +74,25 @@ impl Sys {
     fn add_block(&mut self) -> bool {
         use lightning_signer::util::test_utils::make_testnet_header;
         let mut tracker = self.node.get_tracker();
+        let prev = tracker.tip().clone();
         let (header, proof) = make_testnet_header(tracker.tip(), tracker.height());
-        let ok = tracker.add_block(header, proof).is_ok();
+        let ok = tracker.add_block(header, proof.clone()).is_ok();
         self.world.persister.update_tracker(&self.node_id, &tracker).expect("update_tracker");
         self.blocks += 1;
+        if ok {
+            self.undo.push((proof, prev));
+        }
+        ok
+    }
+    /// disconnect the newest connected block the way the RemoveBlock handler does
+    fn remove_block(&mut self) -> bool {
+        let (proof, prev) = match self.undo.pop() {
+            Some(x) => x,
+            None => return true,
+        };
+        let mut tracker = self.node.get_tracker();
+        let ok = tracker.remove_block(proof, prev).is_ok();
+        self.world.persister.update_tracker(&self.node_id, &tracker).expect("update_tracker");
         ok
     }
     fn cid(&self, dbid: u64) -> ChannelId {
@@ -136,7 +153,11 @@ fn run(args: &Args) {
             if sys.testnet && (11..=14).contains(&choice) {
                 // regtest addresses do not parse on Testnet: these draws connect a block instead
                 // (at most three: stubs are pruned six blocks after their creation)
-                choice = if sys.blocks < 3 { 100 } else { 10 };
+                // (the first block stays: a tracker at height 0 is moved to the checkpoint by a restart)
+                choice = if sys.undo.len() >= 2 && rng.chance(1, 3) { 101 } else if sys.blocks < 3 { 100 } else { 10 };
+            } else if !sys.testnet && choice == 10 && rng.chance(1, 2) {
+                // Regtest: blocks come and go too
+                choice = if !sys.undo.is_empty() && rng.chance(1, 2) { 101 } else { 100 };
             }
             let mut restarted = false;
             let (coq, j, res): (String, serde_json::Value, Result<bool, ()>) = match choice {
@@ -183,6 +204,10 @@ fn run(args: &Args) {
                     // a connected block changes nothing the node model tracks
                     let ok = sys.add_block();
                     ("Heartbeat".to_string(), json!(["add_block", sys.blocks]), Ok(ok))
+                }
+                101 => {
+                    let ok = sys.remove_block();
+                    ("Heartbeat".to_string(), json!(["remove_block", sys.undo.len()]), Ok(ok))
                 }
                 10 => {
                     let r = catch_unwind(AssertUnwindSafe(|| {
